@@ -755,6 +755,16 @@ namespace cds { namespace algo {
                 return true;
             }
 
+            // A record may become "removed" (its owner thread exits) after the first loop of compact_list()
+            // has decided to keep it in the publication list: such a record must not be freed yet
+            bool is_published( publication_record const * pRec ) const
+            {
+                for ( publication_record const * p = m_pHead; p; p = p->pNext.load( memory_model::memory_order_acquire ))
+                    if ( p == pRec )
+                        return true;
+                return false;
+            }
+
             void compact_list( unsigned int nCurAge )
             {
                 // Compacts publication list
@@ -798,7 +808,7 @@ namespace cds { namespace algo {
                 // Iterate over allocated list to find removed records
                 pPrev = m_pAllocatedHead;
                 for ( publication_record * p = pPrev->pNextAllocated.load( memory_model::memory_order_acquire ); p; ) {
-                    if ( p->nState.load( memory_model::memory_order_relaxed ) == removed ) {
+                    if ( p->nState.load( memory_model::memory_order_relaxed ) == removed && !is_published( p )) {
                         publication_record * pNext = p->pNextAllocated.load( memory_model::memory_order_relaxed );
                         if ( pPrev->pNextAllocated.compare_exchange_strong( p, pNext, memory_model::memory_order_acquire, atomics::memory_order_relaxed )) {
                             free_publication_record( static_cast<publication_record_type *>( p ));
